@@ -63,8 +63,19 @@ def rule_json(ctx):
         'values': ('call', ('attr', ('attr', SELF, 'values'), 'tolist'), (), ()),
         'dims': ('call', ('name', 'list'), (('attr', SELF, 'dims'),), ()),
     }
+    def dims_by_axes(t):
+        # [ax.name for ax in self.axes] (in a list or through list(...)): the dimension names, read from the axes
+        if t is not None and t[0] == 'call' and T.dotted(t[1]) == 'list' and len(t[2]) == 1:
+            t = t[2][0]
+        return t is not None and t[0] == 'comp' and len(t[3]) == 1 and t[3][0][1] in (('attr', SELF, 'axes'), ('attr', SELF, '_axes')) and not t[3][0][2] \
+            and t[2] == ('attr', ('elem', t[3][0][1], t[3][0][0]), 'name')
+    VALS = (('attr', SELF, 'values'), ('attr', SELF, '_values'))
+    same = {'values': [('call', ('attr', v_, 'tolist'), (), ()) for v_ in VALS],
+            'dims': [('call', ('name', 'list'), (('attr', SELF, 'dims'),), ())]}
     for k, t in want.items():
-        if written.get(k) != t:
+        if written.get(k) in same[k] or (k == 'dims' and dims_by_axes(written.get(k))):
+            ctx.holds('R1', "writer: '%s' <- %s" % (k, T.show(written.get(k))[:80]))
+        elif written.get(k) != t:
             ctx.violated('R1', w, "'%s': %s" % (k, T.show(written.get(k))[:100] if k in written else 'missing'), "to_jsondict must write '%s' as %s" % (k, T.show(t)))
         else:
             ctx.holds('R1', "writer: '%s' <- %s" % (k, T.show(t)))
